@@ -27,7 +27,17 @@ const (
 	ErrEOF
 	ErrUnexpectedEOF
 	ErrCustom
+	// ErrTemporary is an error that announces itself as transient
+	// (Temporary() == true, like EINTR / EAGAIN) and keeps coming back.
+	ErrTemporary
 )
+
+// TemporaryError is the transient device error.
+type TemporaryError struct{}
+
+func (TemporaryError) Error() string   { return "simulated entropy device: resource temporarily unavailable" }
+func (TemporaryError) Temporary() bool { return true }
+func (TemporaryError) Timeout() bool   { return false }
 
 // ErrDevice is the "custom" device error.
 var ErrDevice = errors.New("simulated entropy device failure")
@@ -116,6 +126,8 @@ func (d *Device) err() error {
 		return io.EOF
 	case ErrUnexpectedEOF:
 		return io.ErrUnexpectedEOF
+	case ErrTemporary:
+		return TemporaryError{}
 	default:
 		return ErrDevice
 	}
@@ -197,7 +209,7 @@ func (c DevCfg) Summary() string {
 		s += fmt.Sprintf(" chunks=%v", c.Chunks)
 	}
 	if c.ErrAt >= 0 {
-		k := [...]string{"?", "EOF", "ErrUnexpectedEOF", "custom"}[c.ErrKind]
+		k := [...]string{"?", "EOF", "ErrUnexpectedEOF", "custom", "temporary"}[c.ErrKind]
 		s += fmt.Sprintf(" err@%d=%s", c.ErrAt, k)
 		if c.ErrWithData {
 			s += "+data"
